@@ -5,6 +5,12 @@ import sys, os, json, time, importlib, traceback, faulthandler, logging
 def main():
     pid, inp, out = sys.argv[1], sys.argv[2], sys.argv[3]
     faulthandler.enable()
+    try:
+        import resource
+        lim = int(os.environ.get("FPVERIF_MEM_GB", "6")) << 30
+        resource.setrlimit(resource.RLIMIT_AS, (lim, lim))   # a runaway case becomes a MemoryError event, not an OOM of the sandbox
+    except Exception:
+        pass
     import flowpaths
     root = os.path.realpath(os.environ.get("FPVERIF_REPO") or "/repo") + "/"
     if not os.path.realpath(flowpaths.__file__).startswith(root):
